@@ -10,7 +10,10 @@ import (
 	"sort"
 	"strconv"
 	"strings"
+	"sync"
+	"sync/atomic"
 	"testing"
+	"time"
 
 	rxapp "github.com/Dash-Industry-Forum/livesim2/cmd/cmaf-ingest-receiver/app"
 	"github.com/Eyevinn/mp4ff/mp4"
@@ -143,11 +146,20 @@ func readSeg(path string) (segFile, error) {
 }
 
 type info struct {
-	spread    int // largest distance (in segments) between two tracks' newest numbers
-	mpds      int
-	lastNr    int64
-	gapOrDup  bool
-	progress  bool
+	spread   int // largest distance (in segments) between two tracks' newest numbers
+	mpds     int
+	lastNr   int64
+	gapOrDup bool
+	progress bool
+}
+
+var pollReads atomic.Int64
+
+func tail(b []byte, n int) []byte {
+	if len(b) > n {
+		return b[len(b)-n:]
+	}
+	return b
 }
 
 func checkCase(c Case, storage string) (*hx.Violation, info) {
@@ -179,6 +191,43 @@ func checkCase(c Case, storage string) (*hx.Violation, info) {
 			return hx.V("init-refused", "init of %s -> %d", tr.Name, code), inf
 		}
 	}
+	// "the MPD file is always a complete document" also for a reader that does not wait for the receiver: a poller reads the
+	// published file while the uploads go on; every read that finds the file must find a whole document
+	var pollBad atomic.Value
+	pollStop := make(chan struct{})
+	var pollWG sync.WaitGroup
+	pollWG.Add(1)
+	go func() {
+		defer pollWG.Done()
+		mp := filepath.Join(storage, chName, "manifest_timeline_nr.mpd")
+		for {
+			select {
+			case <-pollStop:
+				return
+			default:
+			}
+			b, err := os.ReadFile(mp)
+			if err == nil {
+				tb := bytes.TrimSpace(b)
+				if !bytes.HasSuffix(tb, []byte("</MPD>")) || !bytes.HasPrefix(tb, []byte("<")) {
+					if pollBad.Load() == nil {
+						pollBad.Store(fmt.Sprintf("a reader polling the published timeline MPD found %d bytes that are not a whole document (tail %q)", len(b), tail(tb, 40)))
+					}
+					return
+				}
+				pollReads.Add(1)
+			}
+			time.Sleep(20 * time.Microsecond)
+		}
+	}()
+	defer func() {
+		select {
+		case <-pollStop:
+		default:
+			close(pollStop)
+		}
+		pollWG.Wait()
+	}()
 	uploaded := map[string][]byte{} // track/seqOut -> body of the accepted upload (last one)
 	newest := make([]int64, len(c.Tracks))
 	for i := range newest {
@@ -197,6 +246,9 @@ func checkCase(c Case, storage string) (*hx.Violation, info) {
 		code := r.Upload("PUT", urlFor(tr, strconv.Itoa(int(op.Seq))), body, nil, i%3 != 0)
 		if !r.R.VerifQuiesce(chName) {
 			return hx.V("harness", "channel missing")
+		}
+		if m := pollBad.Load(); m != nil {
+			return hx.V("mpd-not-atomic", "upload %d: %s", i, m.(string))
 		}
 		seqOut := int64(op.Seq) - int64(c.StartNr)
 		if code == 200 {
